@@ -4,10 +4,8 @@ from ..ir import strip_casts, const_of, walk, show, kids
 from ..graph import find_path, ret_class
 from .common import compare_info
 
-EXPL = ('Two clauses of C01 only: "whatever reads on this or other signals were issued before" -> the level-1 index/summary cache hit is '
-        'keyed by the signal id on every path; "block larger than the reader\'s initial buffer" -> the read buffer growth is strictly '
-        'increasing and the size requested on TOO_BIG covers what the payload reader compares, for every byte residue.')
-NOT_DECIDED = 'Bit-exactness, shift/carry arithmetic of sub-byte windows, seek step sizes and the reported length: value arithmetic, not decided.'
+EXPL = ('Shape clauses of C01 (the round trip itself is not decided): the level-1 cache hit is keyed by the signal id and the sample range; sample bytes of the read buffer are used only after a checked read / reconstruction on the same path; the read buffer growth is strictly increasing and the size requested on TOO_BIG covers what the payload reader compares for every byte residue; the first block is always stored and a block is omitted only when full; the sample-id offset is applied once per value and api / file ids are never compared (may-dataflow); the seek descent carries no accumulator from level to level; at close every summary level whose index still refers to unreachable chunks is written.')
+NOT_DECIDED = ('Bit-exactness of the packer and window-copy arithmetic, seek step sizes: value arithmetic, not decided (the defects found there were found by replay, not by a rule).')
 
 
 def run(ctx, sess):
